@@ -549,6 +549,15 @@ func runC20(c *Ctx, w *World, r *Report) {
 						continue
 					}
 					rfacts = append(rfacts, iv.Facts...)
+					// every part: the recursive call is made in every round of the loop, no part is skipped by a branch inside it
+					if iv.Phi != nil {
+						hb := iv.Phi.Block()
+						for _, pr := range hb.Preds {
+							if hb.Dominates(pr) && !rc.Block().Dominates(pr) {
+								miss = append(miss, fmt.Sprintf("the size of EVERY part: the recursive call at %s is not made in every round of the loop over the parts (a part is skipped on some branch - blank or unexported fields, zero elements ... are parts like any other)", w.InstrPos(rc)))
+							}
+						}
+					}
 					if !iv.FirstConst || iv.First != 0 || iv.Step != 1 {
 						miss = append(miss, fmt.Sprintf("enumeration from 0 in steps of 1 (found first=%d step=%d) at %s", iv.First, iv.Step, w.InstrPos(rc)))
 					}
